@@ -136,6 +136,9 @@ func genAV1TU(t *core.Tape, mtu int) ([]av1OBU, []byte) {
 		if size > 140000 {
 			size = 140000
 		}
+		if mtu >= 60000 && t.Chance(1, 40) {
+			size = 1<<21 - 3 + t.Intn(6) // the 3-byte / 4-byte LEB128 boundary of an OBU size
+		}
 		o.payload = t.Bytes(size)
 		o.hasSize = !(omitLastSize && i == n-1)
 		obus = append(obus, o)
